@@ -15,7 +15,7 @@ ENGINES = {
     "C08": "run", "C11": "run", "C23": "run", "C25": "run", "C30": "run", "C31": "run",
     "C06": "ops", "C09": "ops", "C10": "ops",
     "C12": "alloc", "C13": "alloc", "C14": "alloc",
-    "C15": "serde", "C16": "serde", "C17": "serde", "C18": "serde", "C29": "serde",
+    "C15": "serde", "C16": "serde", "C29": "serde", "C17": "serdebr", "C18": "serdebr",
     "C19": "incremental",
     "C20": "serde2026", "C21": "varint",
     "C22": "hash", "C24": "hash",
